@@ -564,6 +564,35 @@ def extcase_rule(run, rid, p, funcs, text, triage_tbl=None):
                 run.ob(rid, key, st, 'extension test %s is made on %s' % (
                     norm(x)[:70], 'the lower-cased extension' if st else 'the extension as spelled in the file name, so '
                     'X.%s is not recognised' % (lits[0].lstrip('.').upper())), fn=f, node=x)
+        # the same test written as a lookup: TABLE.get(ext) / TABLE[ext] / ext in TABLE over a table keyed by extensions
+        for x in p.own_nodes(f):
+            tab = a = None
+            if isinstance(x, ast.Call) and isinstance(x.func, ast.Attribute) and x.func.attr == 'get' and x.args and isinstance(x.func.value, ast.Name):
+                tab, a = x.func.value.id, x.args[0]
+            elif isinstance(x, ast.Subscript) and isinstance(x.value, ast.Name) and isinstance(x.ctx, ast.Load):
+                tab, a = x.value.id, x.slice
+            elif isinstance(x, ast.Compare) and len(x.ops) == 1 and isinstance(x.ops[0], (ast.In, ast.NotIn)) and isinstance(x.comparators[0], ast.Name):
+                tab, a = x.comparators[0].id, x.left
+            if tab is None:
+                continue
+            d = f.mod.consts.get(tab)
+            if not isinstance(d, ast.Dict) or not d.keys:
+                continue
+            lits = [k.value for k in d.keys if isinstance(k, ast.Constant) and isinstance(k.value, str)]
+            if len(lits) != len(d.keys) or not all(s_.startswith('.') and any(c.isalpha() for c in s_) for s_ in lits):
+                continue
+            st = _ext_state(a, binds, x.lineno, helpers)
+            if st is None:
+                continue
+            n += 1
+            key = '%s::%s::%s' % (f.rel, f.short, norm(x))
+            fkey = '%s::%s' % (f.rel, f.short)
+            if not st and (key in triage_tbl or fkey in triage_tbl):
+                run.note(rid, 'case-sensitive by design: %s (%s)' % (key, triage_tbl.get(key) or triage_tbl[fkey]), fn=f, node=x)
+                continue
+            run.ob(rid, key, st, 'extension lookup %s (keys %s) is made on %s' % (
+                norm(x)[:60], lits, 'the lower-cased extension' if st else 'the extension as spelled in the file name, so '
+                'X.%s is not recognised' % (lits[0].lstrip('.').upper())), fn=f, node=x)
     return n
 
 
